@@ -1762,6 +1762,15 @@ impl Sessions {
             .is_ok()
         {
             packet.header.proto.adjust_reliability(true, &packet.peer);
+
+            if packet.header.plain.get_dst_groupcast_nodeid().is_some() {
+                // Multicast group messages do not use MRP: there is nobody to send an
+                // acknowledgement to (and no way to build one, as group data messages
+                // are stamped with a reserved global group counter), so a stray
+                // reliability flag is not honored
+                packet.header.proto.unset_reliable();
+            }
+
             Some(pb.slice_range())
         } else {
             None
